@@ -156,10 +156,13 @@ TT_NAMES = [("a_nested", "b_plain"), ("n_nested", "b_plain"), ("y", "z_nested"),
 
 
 @st.composite
-def twotype_cases(draw):
+def twotype_cases(draw, plain2=False):
+    """plain2: both components are plain arrays, of different lengths (C03 compares values for those)."""
     nested, plain = draw(st.sampled_from(TT_NAMES))
     if "nested" not in nested:
         nested, plain = plain, nested
+    if plain2:
+        nested, plain = draw(st.sampled_from([("ya", "zb"), ("zb", "ya"), ("slow", "fast"), ("fast", "slow")]))
     comps = [nested, plain]
     defined = {c: {"<state>" + c} for c in comps}
     coef = st.sampled_from([0.5, 2, -1, 0.25, 3])
@@ -173,7 +176,17 @@ def twotype_cases(draw):
         for _ in range(n):
             c = draw(st.sampled_from(comps))
             k = draw(st.sampled_from(["call", "call", "update", "temp", "temp", "save", "move", "yield", "yield", "selfupd",
-                                      "if", "if", "exit"]))
+                                      "if", "if", "exit", "norm", "norm", "abs"]))
+            if k == "norm":
+                # the same built-in applied to values of both user types (their generated routines differ)
+                f = draw(st.sampled_from(["<builtin>norm_2", "<builtin>norm_2", "<builtin>len"]))   # the ones with Fortran generators
+                ops.append(["norm", "<p>n_" + c, f, vec(c)])
+                continue
+            if k == "abs":
+                tgt = draw(st.sampled_from(["t_" + c, "t2_" + c]))
+                ops.append(["abs", tgt, c, vec(c)])
+                defined[c].add(tgt)
+                continue
             if k == "call":
                 tgt = draw(st.sampled_from(["k_" + c, "k2_" + c]))
                 ops.append(["call", tgt, c, vec(c)])
@@ -227,8 +240,11 @@ def twotype_cases(draw):
         if draw(st.integers(0, 3)) > 0:
             body.append(["yield", c, "<state>" + c])
     body.append(["advance"])
+    ln, lp = draw(st.integers(1, 4)), draw(st.integers(1, 4))
+    if plain2 and ln == lp:
+        lp = ln + 1
     return {"nested": nested, "plain": plain, "body": body, "steps": draw(st.integers(2, 5)),
-            "len_nested": draw(st.integers(1, 4)), "len_plain": draw(st.integers(1, 4))}
+            "len_nested": ln, "len_plain": lp, "plain2": plain2}
 
 
 def twotype_build(case):
@@ -247,6 +263,10 @@ def twotype_build(case):
                 cb.assign(var(op[1]), e)
             elif k == "move":
                 cb.assign(var(op[1]), var(op[2]))
+            elif k == "norm":
+                cb.assign(var(op[1]), var(op[2])(var(op[3])))
+            elif k == "abs":
+                cb.assign(var(op[1]), var("<builtin>elementwise_abs")(var(op[3])))
             elif k == "yield":
                 cb.yield_state(var(op[2]), op[1], var("<t>"), "final")
             elif k == "if":
@@ -275,6 +295,8 @@ def twotype_generate(case, dag):
     freg = register_ode_rhs(freg, nested, identifier="<func>f_" + nested, input_names=("y",))
     freg = freg.register_codegen("<func>f_" + nested, "fortran", f.CallCode("""
         ${result}%v = -2*${y}%v
+        """ if not case.get("plain2") else """
+        ${result} = -2*${y}
         """))
     freg = register_ode_rhs(freg, plain, identifier="<func>f_" + plain, input_names=("y",))
     freg = freg.register_codegen("<func>f_" + plain, "fortran", f.CallCode("""
@@ -288,8 +310,9 @@ def twotype_generate(case, dag):
         end type
         """,
         user_type_map={
-            nested: f.StructureType("nested_t", (
-                ("v", f.PointerType(f.ArrayType((case["len_nested"],), f.BuiltinType("real*8")))),)),
+            nested: (f.StructureType("nested_t", (
+                ("v", f.PointerType(f.ArrayType((case["len_nested"],), f.BuiltinType("real*8")))),))
+                if not case.get("plain2") else f.ArrayType((case["len_nested"],), f.BuiltinType("real*8"))),
             plain: f.ArrayType((case["len_plain"],), f.BuiltinType("real*8")),
         })
     text, _ = K.quiet(cg, dag)
